@@ -48,7 +48,10 @@ def Shape : B → DataType → Bool → Metadata → Prop
       Shape ks kdt knl kmd ∧ Shape vs vdt vnl vmd
   | .struct _ _ v fs _ _ _, dt, n, _ => v.isSome = n ∧ ∃ sfs, dt = .struct sfs ∧ ShapeL fs sfs
   | .dictionary _ idx vals _, dt, n, _ =>
-    (∃ kdt vdt, dt = .dictionary kdt vdt) ∧ idx.isIntLeaf = true ∧ idx.isNullable = n ∧ vals.isUtf8B = true
+    -- the value builder is the builder of the (non-nullable, metadata-free) value field; R2 covers the string builders
+    -- (Utf8 / LargeUtf8) and the builders that refuse strings
+    (∃ kdt vdt, dt = .dictionary kdt vdt ∧ Shape vals vdt false []) ∧ idx.isIntLeaf = true ∧ idx.isNullable = n ∧
+      (vals.isUtf8B = true ∨ vals.refusesStr = true)
   | .union _ fs _ _ _, dt, _, _ => ∃ ufs mode, dt = .union ufs mode ∧ ShapeU fs ufs 0
 def ShapeL : BL → Fields → Prop
   | .nil, .nil => True
@@ -97,8 +100,11 @@ theorem Shape_takeRest : ∀ (b : B) (dt : DataType) (n : Bool) (md : Metadata),
     constructor
     · rintro ⟨h1, sfs, h2, h3⟩; exact ⟨h1, sfs, h2, (ShapeL_takeRest fs sfs).1 h3⟩
     · rintro ⟨h1, sfs, h2, h3⟩; exact ⟨h1, sfs, h2, (ShapeL_takeRest fs sfs).2 h3⟩
-  | .dictionary _ idx vals _, _, _, _ => by
-    simp only [takeRest, Shape, isIntLeaf_takeRest, isUtf8B_takeRest, isNullable_takeRest]
+  | .dictionary _ idx vals _, dt, _, _ => by
+    simp only [takeRest, Shape, isIntLeaf_takeRest, isUtf8B_takeRest, isNullable_takeRest, refusesStr_takeRest]
+    constructor
+    · rintro ⟨⟨k, v, h1, h2⟩, h3⟩; exact ⟨⟨k, v, h1, (Shape_takeRest vals v false []).1 h2⟩, h3⟩
+    · rintro ⟨⟨k, v, h1, h2⟩, h3⟩; exact ⟨⟨k, v, h1, (Shape_takeRest vals v false []).2 h2⟩, h3⟩
   | .union _ fs _ _ _, dt, n, md => by
     simp only [takeRest, Shape]
     constructor
@@ -144,5 +150,77 @@ theorem interpNull_of_nullable {dt : DataType} {md : Metadata} (h1 : isUnknownVa
   rw [h1]
   cases dt <;> simp
   exact absurd rfl (h2 _ _)
+
+/-! ### dictionaries: the value builder against the value type -/
+
+/-- the data type of a value builder that refuses strings gives strings no meaning -/
+theorem interpDictStr_refused (ext : Ext) {vals : B} {vdt : DataType} {n : Bool} {md : Metadata} (s : String)
+    (hs : Shape vals vdt n md) (hr : vals.refusesStr = true) : ∃ e, interpDictStr ext vdt s = .error e := by
+  cases vals with
+  | null _ _ => simp only [Shape] at hs; obtain ⟨rfl, _⟩ := hs; exact ⟨_, rfl⟩
+  | unknownVariant _ => simp only [Shape] at hs; obtain ⟨rfl, _⟩ := hs; exact ⟨_, rfl⟩
+  | leaf p k v xs =>
+    simp only [Shape] at hs
+    obtain ⟨hk, _⟩ := hs
+    cases vdt <;> simp [kindOf] at hk <;> subst hk <;> simp [B.refusesStr] at hr <;> exact ⟨_, rfl⟩
+  | bytes p ty v offs data =>
+    simp only [Shape] at hs
+    obtain ⟨rfl, _⟩ := hs
+    cases ty <;> simp [B.refusesStr, isUtf8Ty] at hr <;> exact ⟨_, rfl⟩
+  | bytesView p ty v views buf =>
+    simp only [Shape] at hs
+    obtain ⟨rfl, _⟩ := hs
+    cases ty with
+    | utf8View => simp only [B.refusesStr] at hr; exact absurd hr (by decide)
+    | binaryView => exact ⟨_, rfl⟩
+  | fixedSizeBinary _ _ _ _ _ _ => simp only [Shape] at hs; obtain ⟨rfl, _⟩ := hs; exact ⟨_, rfl⟩
+  | list _ large _ _ _ _ =>
+    simp only [Shape] at hs
+    obtain ⟨_, _, _, _, _, rfl, _⟩ := hs
+    cases large <;> exact ⟨_, rfl⟩
+  | fixedSizeList _ _ _ _ _ _ _ => simp only [Shape] at hs; obtain ⟨_, _, _, _, _, rfl, _⟩ := hs; exact ⟨_, rfl⟩
+  | map _ _ _ _ _ _ =>
+    simp only [Shape] at hs
+    obtain ⟨_, _, _, _, _, _, _, _, _, _, _, _, _, _, rfl, _⟩ := hs
+    exact ⟨_, rfl⟩
+  | struct _ _ _ _ _ _ _ => simp only [Shape] at hs; obtain ⟨_, _, rfl, _⟩ := hs; exact ⟨_, rfl⟩
+  | dictionary _ _ _ _ => simp [B.refusesStr] at hr
+  | union _ _ _ _ _ => simp only [Shape] at hs; obtain ⟨_, _, rfl, _⟩ := hs; exact ⟨_, rfl⟩
+
+/-- a Utf8 / LargeUtf8 value builder: the string is the value -/
+theorem interpDictStr_utf8 (ext : Ext) {vals : B} {vdt : DataType} {n : Bool} {md : Metadata} (s : String)
+    (hs : Shape vals vdt n md) (hu : vals.isUtf8B = true) : interpDictStr ext vdt s = .ok (.str (strBytes s)) := by
+  cases vals with
+  | bytes p ty v offs data =>
+    simp only [Shape] at hs
+    obtain ⟨rfl, _⟩ := hs
+    cases ty <;> simp [B.isUtf8B, isUtf8Ty] at hu <;> rfl
+  | _ => simp [B.isUtf8B] at hu
+
+/-- a scalar that means something at a covered dictionary: the value builder is a Utf8 / LargeUtf8 builder -/
+theorem dict_interp_utf8 {ext : Ext} {x : SVal} {kdt vdt : DataType} {lv : LVal} {vals : B} {n : Bool} {md : Metadata}
+    (hsv : Shape vals vdt n md) (hu : vals.isUtf8B = true ∨ vals.refusesStr = true)
+    (hi : interpScalar ext (.dictionary kdt vdt) x = .ok lv) : vals.isUtf8B = true := by
+  rcases hu with h | hr
+  · exact h
+  · exfalso
+    simp only [interpScalar] at hi
+    cases hs : scalarToString ext x with
+    | none => simp [hs, fail] at hi
+    | some s =>
+      obtain ⟨e, he⟩ := interpDictStr_refused ext s hsv hr
+      simp [hs, he] at hi
+
+/-- the dictionary clause of `interpScalar` at a Utf8 / LargeUtf8 value builder -/
+theorem interpScalar_dict_utf8 {ext : Ext} {x : SVal} {kdt vdt : DataType} {vals : B} {n : Bool} {md : Metadata}
+    (hsv : Shape vals vdt n md) (hu : vals.isUtf8B = true) :
+    interpScalar ext (.dictionary kdt vdt) x =
+      (match scalarToString ext x with
+      | some s => .ok (.str (strBytes s))
+      | none => fail "not a string") := by
+  simp only [interpScalar]
+  cases hs : scalarToString ext x with
+  | none => rfl
+  | some s => simp only [interpDictStr_utf8 ext s hsv hu]
 
 end SaModel.Build
